@@ -374,8 +374,11 @@ def r15_4(chk, mod):
     if len(row_app) == 1:
         loop = row_app[0].loops[-1]
         it = loop.iter.as_atom() if loop.iter is not None else None
+        # the columns as collected: wrapped in np.array(...) they would be coerced to one dtype (an integer column next to a float column
+        # is written - and read back - as floats, next to a string column as strings)
+        colobjs = {e.target.as_atom()[1].key() for e in col_app} if col_app else set()
         okrow = bool(it and call_name(it) == "zip" and it[2] and it[2][0].as_atom() and it[2][0].as_atom()[0] == "starred"
-                     and "loop_values" in it[2][0].key())
+                     and it[2][0].as_atom()[1].key() in colobjs)
         sep = row_app[0].extra["args"][0].as_atom()
         okrow = okrow and bool(sep and call_name(sep) == ".join" and string_value(sep[1].as_atom()[1]) == " ")
     chk.ob("R15.4", MOD, q, "rows are the zip of the group's columns, fields separated by a blank, one row per line", okrow)
